@@ -26,6 +26,7 @@ have are read by their documented definition before the parse is written for Duc
                                                   = EVERY match replaced (DuckDB: only with the 'g' option), searching from position pos
     SEQUENCE(a, b) without a step (Spark, Databricks) = step 1 if a <= b, otherwise -1
     ARRAY_TO_STRING([..], sep) (BigQuery)         = NULL elements omitted, '' when all are NULL (DuckDB gives NULL then)
+    RINT / LOG1P / EXPM1 / ISNULL (Spark, Databricks) = ROUND_EVEN(x, 0) / LN(1 + x) / EXP(x) - 1 / x IS NULL
     TIMESTAMP WITH LOCAL TIME ZONE                = TIMESTAMPTZ
     CONCAT(a, b, ..) on a dialect whose CONCAT is strict (sqlglot: CONCAT_COALESCE = False)
                                                   = a || b || ..  (NULL if an operand is NULL; DuckDB's CONCAT skips NULL operands)
@@ -54,6 +55,24 @@ PRIM_DIALECTS_TRY_TS = {"spark", "databricks", "redshift"}  # Snowflake: read by
 REGEXP_GLOBAL_DIALECTS = {"spark", "databricks", "bigquery", "snowflake", "redshift"}
 SEQUENCE_DIALECTS = {"spark", "databricks"}
 NTZ_DIALECTS = {"spark", "databricks", "snowflake", "redshift"}
+
+
+SPARK_NATIVE_DIALECTS = {"spark", "databricks"}
+
+
+def _spark_native() -> t.Dict[str, t.Tuple[int, t.Callable[..., t.Any]]]:
+    from sqlglot import exp
+
+    one = exp.Literal.number(1)
+    return {
+        "RINT": (1, lambda x: exp.Anonymous(this="ROUND_EVEN", expressions=[x, exp.Literal.number(0)])),  # ties to even
+        "LOG1P": (1, lambda x: exp.Ln(this=exp.paren(exp.Add(this=one.copy(), expression=x)))),
+        "EXPM1": (1, lambda x: exp.paren(exp.Sub(this=exp.Exp(this=x), expression=one.copy()))),
+        "ISNULL": (1, lambda x: exp.paren(exp.Is(this=x, expression=exp.Null()))),
+    }
+
+
+SPARK_NATIVE = _spark_native()
 
 
 def _fmt_literal(node: t.Any) -> t.Optional[str]:
@@ -98,6 +117,10 @@ def apply_prims(tree: t.Any, dialect: str, used: t.List[str]) -> t.Any:
             nm = node.name.upper()
             if nm in TRY_TS_NAMES and dialect in PRIM_DIALECTS_TRY_TS and len(node.expressions) == 2:
                 return parse_time(node.expressions[0], node.expressions[1], "TRY_TO_TIMESTAMP") or node
+            if dialect in SPARK_NATIVE_DIALECTS and nm in SPARK_NATIVE and len(node.expressions) == SPARK_NATIVE[nm][0]:
+                # functions Spark / Databricks run natively and DuckDB does not have, by Spark's documented definition
+                used.append(nm)
+                return SPARK_NATIVE[nm][1](*[x.copy() for x in node.expressions])
             if nm == "PARSE_DATETIME" and dialect == "bigquery" and len(node.expressions) == 2:
                 return parse_time(node.expressions[1], node.expressions[0], "PARSE_DATETIME", safe=False) or node
             if nm == "TO_TIMESTAMP_NTZ" and dialect in NTZ_DIALECTS:
@@ -315,7 +338,8 @@ RECIPES: t.Dict[str, t.Dict[str, t.Any]] = {
 # (function, engine) pairs not compared; see module docstring.  "*" = every engine rendering of that function form is skipped.
 _NATIVE = "the engine runs the function natively; sqlglot writes the call unchanged for DuckDB, which does not have it"
 SKIP: t.Dict[t.Tuple[str, str], str] = {
-    **{(f, e): _NATIVE for f in ("isnull", "log1p", "expm1", "rint", "nanvl") for e in ("databricks", "spark", "redshift")},
+    **{(f, "redshift"): _NATIVE for f in ("isnull", "log1p", "expm1", "rint", "nanvl")},
+    **{("nanvl", e): _NATIVE for e in ("databricks", "spark")},
     **{("endswith", e): _NATIVE for e in ("snowflake", "databricks", "spark", "redshift")},
     ("sequence", "redshift"): "Redshift's GENERATE_SERIES is a set-returning function; what sqlframe sends is not an array expression there (not compared)",
     ("sequence", "snowflake"): "third party: sqlglot's Snowflake writer is not idempotent on ARRAY_GENERATE_RANGE",
@@ -538,6 +562,8 @@ def boundary_rows(kind: str, lits: t.Dict[str, t.Any], fmt: t.Optional[t.Tuple[s
         return [{"m": w}] if w else []
     if kind in ("dayofweek", "weekofyear"):
         return [{"d": _D(2023, 3, 4)}, {"d": _D(2023, 3, 5)}, {"d": _D(2023, 3, 6)}]
+    if kind == "rint":
+        return [{"x": 0.5}, {"x": 2.5}, {"x": 1.5}, {"x": -2.5}]
     if kind == "factorial":
         return [{"k": 0}, {"k": 1}, {"k": 5}]
     return []
